@@ -28,7 +28,8 @@ def bcastMac : Mac := 0xffffffffffff
 def arpPort : Nat := 219
 
 /-- What the filtering layer reads from a `Frame`.  `pkt` is exactly what `ACLRule.permit_frame_check` reads
-(Model/Acl.lean).  `arp` = "the payload is an `ARPPacket`".  `tag` stands for the rest of the payload. -/
+(Model/Acl.lean).  `arp` = "the payload is an `ARPPacket`" (then `arpReq`, `arpSnd`, `arpTgt` are its request flag,
+sender and target address).  `tag` stands for the rest of the payload. -/
 structure Frame where
   srcMac : Mac
   dstMac : Mac
@@ -36,6 +37,10 @@ structure Frame where
   ttl : Nat
   arp : Bool
   tag : Nat
+  /-- the `ARPPacket` payload, meaningful when `arp`: `request`, `sender_ip_address`, `target_ip_address` -/
+  arpReq : Bool := false
+  arpSnd : Ip := 0
+  arpTgt : Ip := 0
 deriving DecidableEq, Repr
 
 /-- `enabled`, MAC, and (layer-3 interfaces) address and subnet mask. Switch ports carry `ip = mask = 0`. -/
